@@ -15,6 +15,7 @@
 From Coq Require Import List NArith Bool.
 From Wbxml Require Import Model.Codec Model.EncWbxml Model.Flow Model.FlowEnc Proofs.FlowProofs Proofs.FlowEncProofs.
 From Wbxml Require Model.EncXml Model.FlowEncXml Proofs.FlowEncXmlProofs.
+From Wbxml Require Import Model.FlowEncRewrite Proofs.FlowEncRewriteProofs.
 Import ListNotations.
 
 (* --- the repaired code: the full theorem, for every per-node encoder and every history ------------------ *)
@@ -196,4 +197,28 @@ Example C17_ex_encxml_d16 :
               Node (EncXml.Elt (EncXml.TLit [100]%N) [] []); GetOutput] in
   out _ (FlowEncXml.x_run l0 o0 ops) = [60; 97; 62; 10; 60; 100; 47; 62; 10]%N /\
   out _ (FlowEncXml.x_run_fixed l0 o0 ops) = [60; 97; 62; 10; 32; 60; 100; 47; 62; 10]%N.
+Proof. vm_compute. auto. Qed.
+
+(* --- the encoder rewrites the caller's text nodes in place (Model/FlowEncRewrite.v) ----------------------- *)
+
+(* `text_after e st parent c` = node->content after parse_text (stripped when remove_text_blanks applies; "\n" ->
+   "\r\n" in a SyncML CDATA section).  The models are functions of node VALUES; the property is about the values
+   handed to the encoder.  Encoding the rewritten value once more IN THE SAME encoder state changes nothing ... *)
+Theorem C17_text_rewrite_reencode_same_state : forall e st parent c,
+  enc_text e st parent (text_after e st parent c) = enc_text e st parent c /\
+  text_after e st parent (text_after e st parent c) = text_after e st parent c.
+Proof. exact reencode_same_state. Qed.
+Print Assumptions C17_text_rewrite_reencode_same_state.
+
+(* ... but in another state it does: " a " encoded as ordinary text (remove_text_blanks set) leaves "a" in the node;
+   under a binary-flagged current tag the original is OPAQUE 3 " a ", the rewritten node OPAQUE 1 "a".  A harness that
+   encodes the same node OBJECT twice compares different node values (the false alarm of the thorough tier). *)
+Example C17_ex_text_rewrite_observable :
+  let e0 := flow_env (mk_blang 0 1 None None None None None) false true 3 in
+  let plain := st_of wctx0 in
+  let under_binary := st_of (mk_wctx 0 0 (Some (0, 5, 1)%N)) in
+  text_after e0 plain None [32; 97; 32]%N = [97]%N /\
+  enc_text e0 plain None [32; 97; 32]%N = EOk ([3; 97; 0]%N, plain) /\
+  enc_text e0 under_binary None [32; 97; 32]%N = EOk ([195; 3; 32; 97; 32]%N, under_binary) /\
+  enc_text e0 under_binary None (text_after e0 plain None [32; 97; 32]%N) = EOk ([195; 1; 97]%N, under_binary).
 Proof. vm_compute. auto. Qed.
